@@ -769,8 +769,20 @@ pub fn hist_op(c: &Case) -> String {
     let mut rit: Option<(FindRevIter<'static, 'static>, bool)> = None;
     let mut outs: Vec<String> = Vec::new();
     let arg = |t: &str| -> usize { t[1..].parse::<usize>().unwrap() };
+    // one scratch buffer that is refilled with hs[i] before the searches P<i> / Q<i>: the same
+    // address holds different haystacks during the life of one finder (a reused read buffer)
+    let mut scratch: Vec<u8> = vec![0u8; hs.iter().map(|h| h.len()).max().unwrap_or(0)];
     for t in c.str("ops").split(',').filter(|s| !s.is_empty()) {
         match t.as_bytes()[0] {
+            b'P' | b'Q' => {
+                let h = &hs[arg(t)];
+                scratch[..h.len()].copy_from_slice(h);
+                if t.as_bytes()[0] == b'P' {
+                    outs.push(opt(finder.find(&scratch[..h.len()])));
+                } else {
+                    outs.push(opt(rfinder.rfind(&scratch[..h.len()])));
+                }
+            }
             b'F' => outs.push(opt(finder.find(&hs[arg(t)]))),
             b'A' => outs.push(opt(finder.as_ref().find(&hs[arg(t)]))),
             b'R' => outs.push(opt(rfinder.rfind(&hs[arg(t)]))),
